@@ -675,7 +675,7 @@ def generate(template_path, repo, canary=False, contracts_dir=None, exclude=None
             parts = s.split(None, 2)
             unit = parts[1]
             kv = parse_kv(parts[2] if len(parts) > 2 else "")
-            G.units[unit] = dict(props=kv.get("prop", "").split(","), drops=[], desc=[], fn=None, clauses=0,
+            G.units[unit] = dict(props=kv.get("prop", "").split(","), search=kv.get("search"), drops=[], desc=[], fn=None, clauses=0,
                                  start_line=len(G.lines) + 1)
             i += 1
             continue
